@@ -44,6 +44,9 @@ func init() {
 			{ID: "C03-R12", Title: "parse results are nil-tested before they enter a node", Floor: 10, Run: parseResultsTestedBeforeUse},
 			{ID: "C03-R13", Title: "pointers that may be nil at a merge are tested before use", Floor: 1, Run: maybeNilLocalsAreTested},
 			{ID: "C03-R14", Title: "shared maps are not written under a read lock (fatal, unrecoverable)", Floor: 1, Run: noWritesUnderReadLock},
+			{ID: "C03-R15", Title: "mutex-guarded VM maps are copied, not aliased, into another VM: a concurrent map write is fatal (shared with C09-R5)", Floor: 2, Run: c09r5},
+			{ID: "C03-R16", Title: "fixed-size tables on the unprotected surface are indexed within their length", Floor: 1, Run: tableIndexBounded},
+			{ID: "C03-R17", Title: "recover() is called by the deferred function itself", Floor: 3, Run: recoverIsDirectlyDeferred},
 		},
 	})
 }
